@@ -374,6 +374,24 @@ PROPS = {
                      "an inline parser that returns a node has advanced the reader by >= 1 byte; a parser that returns nil may leave the reader anywhere",
                      "the extensions' own code on trigger-free input is covered by search (conservative), not by proof"],
     ),
+    "C18": dict(
+        level="proof",
+        module="GM.Props.C18",
+        claim="Kernel-checked refinement theorems: a Lean model of text.reader / text.blockReader (every cached field, Go panics explicit) "
+              "simulates a plain cursor over the list of line views on every call sequence that respects the stated preconditions; the model is "
+              "tied to text/reader.go and text/segment.go by exhaustive small-scope and random differential runs of call sequences, and the real "
+              "readers are independently compared, call by call, with a Go cursor. A proof is the right level because the property quantifies over all sources and all call sequences.",
+        note="Trusted: Lean kernel (+ propext, Classical.choice, Quot.sound), the correspondence harness, cap(source)=len(source), models of unicode/utf8 "
+             "and util.IsSpace/IsPunct/IsBlank/TabWidth (tied by C19's component util). Not modelled: Match/FindSubMatch (regexp). Known finding: reader.SetPadding keeps the line and column caches.",
+        technique="Lean 4 refinement proof (state machine model vs. abstract cursor) + differential correspondence check against the Go implementation + Go-side cursor oracle",
+        components=["reader"],
+        explanation="Theorems in GM.Props.C18 over all sources, segment lists and call sequences about the Lean models GM.Model.Reader / GM.Model.Segment; "
+                    "component reader runs the same call sequences on text.NewReader / text.NewBlockReader and on the model (every return value compared) and "
+                    "checks the real readers against a Go cursor over the line views; sequences outside the preconditions are only compared with the model.",
+        assumptions=["cap(source) = len(source) (Go slices up to the capacity, the model up to the length)",
+                     "segments passed to NewBlockReader are non-nil",
+                     "unicode/utf8.DecodeRune/RuneStart are modelled from their documentation and validated differentially (component util)"],
+    ),
 }
 
 # Properties not claimed yet, with the reason shown in MANIFEST.not_applicable.
